@@ -1,5 +1,6 @@
 import TlsModel.Proto
 import TlsModel.Cache
+import TlsModel.Db
 /-
   Driver for C18 (stateful): one SessionCache model object and the specification log side by side.
     new maxEntries maxAge      -> ok                      (fresh object; maxAge may be negative)
@@ -9,14 +10,27 @@ import TlsModel.Cache
     size                       -> dictLen countLen liveLen firstIndex lastIndex
     dict                       -> id:sess,... (sorted by id) or -
   ids, sessions: naturals; times: integers.
+
+  Verifier database (BaseDB model and its specification side by side); names >= 1000 are the
+  reserved ones ("--Reserved--..."), 1000 is the type record; a stored value v was made for user
+  v % 10 with password v / 10 (`check k p` is true iff v = k + 10 p):
+    dbnew mem|disk             -> ok
+    db create | get k | set k v | del k | in k | keys | check k p   -> <impl> <spec>
+        done | val:<v> | bool:true|false | names:<k,k,..>|names:- | KeyError | AssertionError
 -/
 open Tls Tls.Cache
+
+def dbEnv : Tls.Db.Env :=
+  { resv := fun n => n ≥ 1000, typeKey := 1000, typeVal := 0,
+    checkItem := fun v k p => v == k + 10 * p }
 
 structure DState where
   cap : Nat
   maxAge : Int
   impl : ImplState
   spec : SpecState
+  db : Tls.Db.DB := Tls.Db.DB.new false
+  dbSpec : Tls.Db.Spec := Tls.Db.Spec.new false
 
 def DState.fresh (cap : Nat) (maxAge : Int) : DState :=
   { cap := cap, maxAge := maxAge,
@@ -46,7 +60,41 @@ def insertSorted (p : Nat × Nat) : List (Nat × Nat) → List (Nat × Nat)
   | [] => [p]
   | q :: r => if p.1 ≤ q.1 then p :: q :: r else q :: insertSorted p r
 
+def insertNat (p : Nat) : List Nat → List Nat
+  | [] => [p]
+  | q :: r => if p ≤ q then p :: q :: r else q :: insertNat p r
+
+def dbOutName : Tls.Db.Out → String
+  | .done => "done"
+  | .val v => s!"val:{v}"
+  | .bool b => "bool:" ++ boolOut b
+  | .names l =>
+    let l := l.foldr insertNat []
+    "names:" ++ (if l.isEmpty then "-" else ",".intercalate (l.map toString))
+  | .keyError => "KeyError"
+  | .assertionError => "AssertionError"
+
+def doDb (st : DState) (op : Tls.Db.Op) : DState × Option String :=
+  let r := st.db.step dbEnv op
+  let q := st.dbSpec.step dbEnv op
+  ({ st with db := r.1, dbSpec := q.1 }, some (dbOutName r.2 ++ " " ++ dbOutName q.2))
+
+def handleDb (st : DState) : List String → DState × Option String
+  | ["create"] => doDb st .create
+  | ["keys"] => doDb st .keys
+  | ["get", k] => match k.toNat? with | some k => doDb st (.get k) | none => (st, none)
+  | ["del", k] => match k.toNat? with | some k => doDb st (.del k) | none => (st, none)
+  | ["in", k] => match k.toNat? with | some k => doDb st (.contains k) | none => (st, none)
+  | ["set", k, v] => match k.toNat?, v.toNat? with
+    | some k, some v => doDb st (.set k v) | _, _ => (st, none)
+  | ["check", k, p] => match k.toNat?, p.toNat? with
+    | some k, some p => doDb st (.check k p) | _, _ => (st, none)
+  | _ => (st, none)
+
 def handle (st : DState) : List String → DState × Option String
+  | ["dbnew", "mem"] => ({ st with db := Tls.Db.DB.new false, dbSpec := Tls.Db.Spec.new false }, some "ok")
+  | ["dbnew", "disk"] => ({ st with db := Tls.Db.DB.new true, dbSpec := Tls.Db.Spec.new true }, some "ok")
+  | "db" :: rest => handleDb st rest
   | ["new", cap, age] =>
     match cap.toNat?, age.toInt? with
     | some cap, some age => (DState.fresh cap age, some "ok")
